@@ -19,7 +19,9 @@ Ev == Trace[l]
 
 T0 == [key |-> "", known |-> FALSE, regG |-> FALSE, regK |-> FALSE, ended |-> FALSE, cbOpen |-> 0, cbClose |-> 0,
        serves |-> 0, serveRets |-> 0, stopped |-> FALSE, stopRet |-> FALSE, closing |-> FALSE, unreg |-> FALSE,
-       servedAfterStop |-> FALSE]
+       servedAfterStop |-> FALSE,
+       \* Stop / GracefulStop calls on this tunnel's server and their returns; srv = the tunnel that stands for the server
+       stopCalls |-> 0, stopRets |-> 0, gstopCalls |-> 0, gstopRets |-> 0, srv |-> 0]
 RQ0 == [at |-> FALSE, enum |-> <<>>, ready |-> [all |-> FALSE], parked |-> <<>>, pending |-> <<>>, hlive |-> <<>>, final |-> FALSE, g |-> 0]
 
 TN(t) == IF t \in DOMAIN tn THEN tn[t] ELSE T0
@@ -65,7 +67,14 @@ C14_RegistryEmptyAtEnd == (rq.at /\ rq.final) => (rq.enum = <<>> /\ rq.hlive = <
 C10_NoNewTunnels == ~BadHas("serve-after-stop-started")
 C10_StopMeansStopped == ~BadHas("stop-returned-before-serve")
 
-Formulas == [C12_RegistryMatches |-> C12_RegistryMatches, C12_RoutedToOpenRightKey |-> C12_RoutedToOpenRightKey,
+\* Stop ends the tunnels and returns; GracefulStop returns once no tunnel of its server is left (whether an
+\* IDLE tunnel keeps it waiting is finding D8 and is not judged here: only "nothing left, still waiting")
+C10_StopReturns == Quiet => \A t \in DOMAIN tn : tn[t].stopRets = tn[t].stopCalls
+C10_GracefulStopReturnsWhenDrained ==
+  Quiet => \A t \in DOMAIN tn : (tn[t].gstopRets < tn[t].gstopCalls) =>
+              \E u \in Seqset(rq.enum) : u \in DOMAIN tn /\ tn[u].srv = tn[t].srv
+Formulas == [C10_StopReturns |-> C10_StopReturns, C10_GracefulStopReturnsWhenDrained |-> C10_GracefulStopReturnsWhenDrained,
+             C12_RegistryMatches |-> C12_RegistryMatches, C12_RoutedToOpenRightKey |-> C12_RoutedToOpenRightKey,
              C12_ReadyIff |-> C12_ReadyIff, C12_WaitForReadyWakes |-> C12_WaitForReadyWakes, C12_RoundRobin |-> C12_RoundRobin,
              C12_Callbacks |-> C12_Callbacks, C14_ServeLeavesNothing |-> C14_ServeLeavesNothing,
              C14_RegistryEmptyAtEnd |-> C14_RegistryEmptyAtEnd, C10_NoNewTunnels |-> C10_NoNewTunnels,
@@ -82,6 +91,7 @@ Reg(e) ==
   LET t == IF "t" \in DOMAIN e THEN e.t ELSE 0 IN
   CASE e.what = "serve.start" ->
          /\ tn' = SetT(t, [TN(t) EXCEPT !.key = e.key, !.known = TRUE, !.serves = @ + 1,
+                                      !.srv = IF "again" \in DOMAIN e THEN e.of ELSE t,
                                       \* a further Serve call on a server that is stopped / stopping
                                       !.stopped = IF "again" \in DOMAIN e THEN TN(e.of).stopped ELSE @,
                                       !.closing = IF "again" \in DOMAIN e THEN TN(e.of).closing ELSE @])
@@ -98,12 +108,14 @@ Reg(e) ==
          /\ rr' = [v \in Vias |-> <<>>]
          /\ UNCHANGED waits
     [] e.what \in {"stop", "close", "fail", "ctxcancel"} ->
-         /\ tn' = SetT(t, [TN(t) EXCEPT !.ended = TRUE, !.stopped = @ \/ e.what = "stop"])
+         /\ tn' = SetT(t, [TN(t) EXCEPT !.ended = TRUE, !.stopped = @ \/ e.what = "stop",
+                                      !.stopCalls = IF e.what = "stop" THEN @ + 1 ELSE @])
          /\ rr' = [v \in Vias |-> <<>>]
          /\ UNCHANGED <<waits, bad>>
-    [] e.what = "gstop" -> tn' = SetT(t, [TN(t) EXCEPT !.closing = TRUE]) /\ UNCHANGED <<rr, waits, bad>>
+    [] e.what = "gstop" -> tn' = SetT(t, [TN(t) EXCEPT !.closing = TRUE, !.gstopCalls = @ + 1]) /\ UNCHANGED <<rr, waits, bad>>
+    [] e.what = "gstop.ret" -> tn' = SetT(t, [TN(t) EXCEPT !.gstopRets = @ + 1]) /\ UNCHANGED <<rr, waits, bad>>
     [] e.what = "stop.ret" ->
-         /\ tn' = SetT(t, [TN(t) EXCEPT !.stopRet = TRUE])
+         /\ tn' = SetT(t, [TN(t) EXCEPT !.stopRet = TRUE, !.stopRets = @ + 1])
          /\ UNCHANGED <<rr, waits, bad>>
     [] e.what = "cb.open" ->
          /\ tn' = SetT(t, [TN(t) EXCEPT !.cbOpen = @ + 1])
